@@ -124,8 +124,10 @@ def gen_payload(r, chunk):
 def gen_history(r, universe, prefixes, n_ops, big):
     ops = []
     live = set()
-    for _ in range(n_ops):
+    for i in range(n_ops):
         k = r.random()
+        if universe and i < min(5, n_ops // 3) and not big:
+            k = k * 0.36      # histories start with uploads so that listings have something to page through
         if universe and k < 0.24:
             n = r.choice(universe)
             ops.append({'op': 'upload', 'name': n, 'data': gen_payload(r, r.choice([1, 5, 40])).hex()})
@@ -150,7 +152,9 @@ def gen_history(r, universe, prefixes, n_ops, big):
             sink = r.choice([b'', b'junk', r.randbytes(r.randint(0, 3 * min(c, 3000)))])
             ops.append({'op': 'download_stream', 'name': n, 'chunk': c, 'sink': sink.hex()})
         else:
-            ops.append({'op': 'list', 'prefix': r.choice(prefixes)})
+            dirs = [p for p in prefixes if p.endswith('/')] or ['']
+            k2 = r.random()
+            ops.append({'op': 'list', 'prefix': '' if k2 < 0.3 else r.choice(dirs) if k2 < 0.55 else r.choice(prefixes)})
     return ops
 
 
@@ -240,33 +244,41 @@ def run_local(backend, ops):
     return rets
 
 
-async def run_async(backend, ops, count_list_requests):
+async def _one_async(backend, op, count_list_requests):
+    o = op['op']
+    if o == 'upload':
+        await backend.upload(op['name'], bytes.fromhex(op['data']))
+        return {'unit': True}
+    if o == 'upload_stream':
+        d = bytes.fromhex(op['data'])
+        await backend.upload_stream(op['name'], io.BytesIO(d), len(d), chunk_size=op['chunk'])
+        return {'unit': True}
+    if o == 'delete':
+        await backend.delete(op['name'])
+        return {'unit': True}
+    if o == 'exists':
+        return {'bool': bool(await backend.exists(op['name']))}
+    if o == 'download':
+        return {'bytes': bytes(await backend.download(op['name'])).hex()}
+    if o == 'download_stream':
+        s = io.BytesIO(bytes.fromhex(op['sink']))
+        await backend.download_stream(op['name'], s, chunk_size=op['chunk'])
+        return {'bytes': s.getvalue().hex()}
+    if o == 'list':
+        n0 = count_list_requests()
+        names = [x async for x in backend.list_files(op['prefix'])]
+        return {'names': sorted(names), 'requests': count_list_requests() - n0}
+    raise ValueError(o)
+
+
+async def run_async(backend, ops, count_list_requests, new_op=lambda: None):
     rets = []
     for op in ops:
-        o = op['op']
+        new_op()
         try:
-            if o == 'upload':
-                await backend.upload(op['name'], bytes.fromhex(op['data']))
-                rets.append({'unit': True})
-            elif o == 'upload_stream':
-                d = bytes.fromhex(op['data'])
-                await backend.upload_stream(op['name'], io.BytesIO(d), len(d), chunk_size=op['chunk'])
-                rets.append({'unit': True})
-            elif o == 'delete':
-                await backend.delete(op['name'])
-                rets.append({'unit': True})
-            elif o == 'exists':
-                rets.append({'bool': bool(await backend.exists(op['name']))})
-            elif o == 'download':
-                rets.append({'bytes': bytes(await backend.download(op['name'])).hex()})
-            elif o == 'download_stream':
-                s = io.BytesIO(bytes.fromhex(op['sink']))
-                await backend.download_stream(op['name'], s, chunk_size=op['chunk'])
-                rets.append({'bytes': s.getvalue().hex()})
-            elif o == 'list':
-                n0 = count_list_requests()
-                names = [x async for x in backend.list_files(op['prefix'])]
-                rets.append({'names': sorted(names), 'requests': count_list_requests() - n0})
+            rets.append(await asyncio.wait_for(_one_async(backend, op, count_list_requests), timeout=60))
+        except asyncio.TimeoutError:
+            rets.append({'error': 'hang'})
         except (Exception, Watchdog, RecursionError) as e:  # noqa: BLE001
             rets.append({'error': classify(e)})
     try:
@@ -276,16 +288,20 @@ async def run_async(backend, ops, count_list_requests):
     return rets
 
 
-def make_watchdog(limit=400):
-    """fault hook: more than `limit` requests to the fake within one history = a loop that does not terminate"""
+def make_watchdog(limit=60):
+    """fault hook: more than `limit` requests to the fake within ONE adapter call = a loop that does not terminate (a listing
+    over ≤ 12 pages with re-authentications stays far below).  Returns (fault, reset); reset is called before every call."""
     n = [0]
 
     def fault(request):
         n[0] += 1
         if n[0] > limit:
-            return Watchdog('more than %d requests' % limit)
+            return Watchdog('more than %d requests in one call' % limit)
         return None
-    return fault
+
+    def reset():
+        n[0] = 0
+    return fault, reset
 
 
 def real_s3(ops, ps, variant='s3c'):
@@ -297,20 +313,21 @@ def real_s3(ops, ps, variant='s3c'):
     else:
         host = 'objects.fake-s3.test'
         b = S3Compatible('bkt', key_id='AKIDEXAMPLE', access_key='wJalrXUtnFEMI/K7MDENG+bPxRfiCYEXAMPLEKEY', region='eu-west-1', host=host)
-    f = fake_s3.FakeS3('bkt', 'AKIDEXAMPLE', 'wJalrXUtnFEMI/K7MDENG+bPxRfiCYEXAMPLEKEY', 'eu-west-1', host, page_size=ps,
-                       fault=make_watchdog(60 * len(ops) + 200))
+    fault, reset = make_watchdog()
+    f = fake_s3.FakeS3('bkt', 'AKIDEXAMPLE', 'wJalrXUtnFEMI/K7MDENG+bPxRfiCYEXAMPLEKEY', 'eu-west-1', host, page_size=ps, fault=fault)
     fake_s3.install(b, f)
-    rets = loop().run_until_complete(run_async(b, ops, lambda: sum(1 for e in f.log if e['op'] == 'list')))
+    rets = loop().run_until_complete(run_async(b, ops, lambda: sum(1 for e in f.log if e['op'] == 'list'), reset))
     return rets, {'state': sorted([k, v.hex()] for k, v in f.objects.items()), 'sig_failures': f.sig_failures, 'requests': len(f.log)}
 
 
 def real_b2(ops, ps, token_uses=None, restricted=False):
     from replicat.backends.b2 import B2
     b = B2('bkt', key_id='0012ab34cd56ef', application_key='K001secretsecretsecret')
+    fault, reset = make_watchdog()
     f = fake_b2.FakeB2('bkt', '0012ab34cd56ef', 'K001secretsecretsecret', page_size=ps, token_uses=token_uses, restricted=restricted,
-                       other_buckets=[('f00dfeed', 'other-bucket')], fault=make_watchdog(80 * len(ops) + 300))
+                       other_buckets=[('f00dfeed', 'other-bucket')], fault=fault)
     fake_b2.install(b, f)
-    rets = loop().run_until_complete(run_async(b, ops, lambda: sum(1 for e in f.log if e['api'] == 'b2_list_file_names')))
+    rets = loop().run_until_complete(run_async(b, ops, lambda: sum(1 for e in f.log if e['api'] == 'b2_list_file_names'), reset))
     return rets, {'state': sorted([k, v.hex()] for k, v in f.live().items()),
                   'versions': sorted([k, len(v)] for k, v in f.versions.items()), 'requests': len(f.log), 'tokens': f.n_tokens}
 
@@ -330,12 +347,34 @@ def real_local(ops, spelling, scratch):
         case.remove()
 
 
+def gen_flag(name, default):
+    """a Bool / String constant of the regenerated Generated.lean (what the current source says)"""
+    try:
+        t = (LEAN / 'ReplicatModel' / 'Generated.lean').read_text()
+    except OSError:
+        return default
+    m = re.search(r'def %s : (?:Bool|String) := (true|false|"[^"]*")' % re.escape(name), t)
+    if not m:
+        return default
+    v = m.group(1)
+    return v == 'true' if v in ('true', 'false') else v.strip('"')
+
+
+def root_made_absolute():
+    """does Local.__init__ make the repository path absolute (a possible fix of D6)?  Then `self.path` is cwd/<spelling>."""
+    return gen_flag('localRootMadeAbsolute', False)
+
+
 def model_root(spelling):
     """the connection string the model sees: same spelling, with a fixed stand-in for the scratch directory"""
     b = '/w/case'
-    return {'abs': b + '/repo', 'rel': 'repo', 'rel-trailing-slash': 'repo/', 'rel-double-slash': 'repo//', 'dot-rel': './repo',
-            'updown': 'x/../repo', 'abs-updown': b + '/x/../repo', 'abs-double-lead': '//' + b.lstrip('/') + '/repo',
-            'dot': '.', 'empty': '', 'dot-slash': './'}[spelling]
+    s = {'abs': b + '/repo', 'rel': 'repo', 'rel-trailing-slash': 'repo/', 'rel-double-slash': 'repo//', 'dot-rel': './repo',
+         'updown': 'x/../repo', 'abs-updown': b + '/x/../repo', 'abs-double-lead': '//' + b.lstrip('/') + '/repo',
+         'dot': '.', 'empty': '', 'dot-slash': './'}[spelling]
+    if root_made_absolute() and not s.startswith('/'):
+        cwd = b + '/repo' if spelling in localfs.DOT_SPELLINGS else b
+        return cwd + '/' + s
+    return s
 
 
 # ------------------------------------------------------------------------------------------------ comparison helpers
@@ -425,12 +464,7 @@ def check_adapter(ctx, label, adapter, ops, real_rets, real_info, model, replay,
 
 # ------------------------------------------------------------------------------------------------ main histories
 def quote_via_plus():
-    try:
-        t = (LEAN / 'ReplicatModel' / 'Generated.lean').read_text()
-        m = re.search(r'def s3QueryQuoteVia : String := "([^"]*)"', t)
-        return m is None or m.group(1) == 'quote_plus'
-    except OSError:
-        return True
+    return gen_flag('s3QueryQuoteVia', 'quote_plus') == 'quote_plus'
 
 
 def main_histories(ctx, r, n_hist, n_big):
@@ -452,7 +486,7 @@ def main_histories(ctx, r, n_hist, n_big):
         # per adapter: the sub-history inside the region its theorems cover
         def sub(name_ok, prefix_ok):
             return [o for o in ops if (name_ok(o['name']) if 'name' in o else prefix_ok(o['prefix']))]
-        dot_root = spelling in localfs.DOT_SPELLINGS
+        dot_root = spelling in localfs.DOT_SPELLINGS and not root_made_absolute()
         ops_s3 = sub(s3_ok, lambda p: not (space_breaks_s3_list and ' ' in p))
         ops_b2 = sub(b2_ok, lambda p: True)
         # B2: downloading a name that is not live never returns (D9, property C12: unbounded re-authentication recursion) — keep those out
@@ -519,7 +553,8 @@ def main_histories(ctx, r, n_hist, n_big):
             sp2 = r.choice([s for s in pool if s != spelling])
             rets2, info2 = real_local(ops_local, sp2, ctx.newdir())
             out.evaluations += 1
-            if [strip_req(x) for x in rets2] != [strip_req(x) for x in rets] or info2['state'] != info['state']:
+            no_tmp = lambda st: [e for e in st if not e[0].endswith('.tmp')]
+            if [strip_req(x) for x in rets2] != [strip_req(x) for x in rets] or no_tmp(info2['state']) != no_tmp(info['state']):
                 i = first_diff([strip_req(x) for x in rets], [strip_req(x) for x in rets2])
                 out.violation('local:root-spelling-dependence', f'the same history returns different values under root spellings {spelling!r} and {sp2!r} (operation #{i})',
                               dict(replay, adapter='local', ops=ops_local, spelling_b=sp2, index=i))
@@ -595,6 +630,79 @@ def frontier_probes(ctx, r, reps):
         ops = [up(f'{a} {b}'), {'op': 'exists', 'name': f'{a} {b}'}, {'op': 'list', 'prefix': f'{a} '}]
         probe(ctx, 's3', 's3-list-prefix-space', 's3:query-space-signed-as-plus', ops, 'S3 backend, list prefix containing a space (service verifies SigV4)',
               lambda o: real_s3(o, 2), {'ps': 2}, compare_model=False)
+
+
+# ------------------------------------------------------------------------------------------------ atomic replacement, observed at the rename
+def atomic_upload_observations(ctx, r, n):
+    """Every local upload goes through a temporary file and a rename.  The directory tree is observed right before the rename
+    (spy on pathlib.Path.replace) and right after the call; both must be what the model's `uploadState` says (k = 3, 4), and
+    through the adapter's own exists / download / list_files the object must read as the OLD one until the rename."""
+    import pathlib
+    from replicat.backends.local import Local
+    out = ctx.out
+    for _ in range(n):
+        universe = [u for u in gen_universe(r, lambda s: True) if local_ok(u)]
+        if not universe:
+            continue
+        prior = [{'op': 'upload', 'name': r.choice(universe), 'data': r.randbytes(r.randint(0, 9)).hex()} for _ in range(r.randint(0, 4))]
+        name = r.choice(universe)
+        stream = r.random() < 0.4
+        data = r.randbytes(r.choice([0, 1, 7, 2000]))
+        spelling = r.choice([s for s in localfs.SPELLINGS if s not in localfs.DOT_SPELLINGS])
+        case = localfs.LocalCase(ctx.newdir())
+        seen = {}
+        try:
+            s = case.enter(spelling)
+            b = Local(s)
+            old = {}
+            for o in prior:
+                b.upload(o['name'], bytes.fromhex(o['data']))
+                old[o['name']] = o['data']
+            orig = pathlib.Path.replace
+
+            def spy(self, target, _orig=orig):
+                pathlib.Path.replace = _orig          # observe with the unpatched method
+                try:
+                    seen['tree'] = case.tree()[0]
+                    seen['exists'] = b.exists(name)
+                    seen['listed'] = sorted(b.list_files(''))
+                    seen['old'] = b.download(name).hex() if seen['exists'] else None
+                    seen['temp'] = os.path.basename(str(self))
+                finally:
+                    pathlib.Path.replace = spy
+                return _orig(self, target)
+            pathlib.Path.replace = spy
+            try:
+                if stream:
+                    b.upload_stream(name, io.BytesIO(data), len(data), chunk_size=r.choice([1, 1000]))
+                else:
+                    b.upload(name, data)
+            finally:
+                pathlib.Path.replace = orig
+            after = case.tree()[0]
+        finally:
+            case.remove()
+        out.evaluations += 1
+        out.count('atomic-upload:' + ('overwrite' if name in old else 'new') + (':stream' if stream else ''))
+        replay = {'kind': 'atomic', 'prior': prior, 'name': name, 'data': data.hex(), 'root_spelling': spelling}
+        if 'tree' not in seen:
+            out.violation('local:upload:no-rename', 'the upload did not go through a rename of a temporary file', dict(replay))
+            continue
+        if seen['exists'] != (name in old) or seen['old'] != old.get(name) or seen['listed'] != sorted(old):
+            out.violation('local:upload:intermediate-state-visible',
+                          f'right before the rename the object {name!r} reads exists={seen["exists"]}, listing={seen["listed"]}; before the upload it was exists={name in old}, listing={sorted(old)}',
+                          dict(replay, observed={k: v for k, v in seen.items() if k != 'tree'}))
+        if ctx.drv is not None:
+            leaf = name.rsplit('/', 1)[-1][:240]
+            rnd = seen['temp'][len(leaf) + 1:-4] if seen['temp'].startswith(leaf + '_') and seen['temp'].endswith('.tmp') else None
+            m = ctx.drv.ask({'op': 'store.upload_states', 'root': model_root(spelling), 'ops': prior, 'name': name, 'data': data.hex(), 'rnd': rnd or ''})
+            before = sorted([k, v.hex()] for k, v in seen['tree'].items())
+            final = sorted([k, v.hex()] for k, v in after.items())
+            if rnd is None or 'error' in m or m['states'][3] != before or m['states'][4] != final:
+                out.disagreement('local upload: the directory tree at the rename / after the call differs from the model\'s upload states',
+                                 dict(replay, temp=seen['temp'], model=short(m, 1500), before=before[:10], after=final[:10]))
+            else:
+                out.traces_validated += 1
 
 
 # ------------------------------------------------------------------------------------------------ listing loops on hand-made pages
@@ -800,10 +908,15 @@ def run(out, drv, info):
                        'B2 download of a name that is not live is excluded (unbounded re-authentication recursion, D9 / property C12)']
     try:
         r = rng_for(out.seed, 'C13')
-        main_histories(ctx, r, 110 if quick else 2600, 3 if quick else 40)
-        frontier_probes(ctx, rng_for(out.seed, 'C13-probes'), 2 if quick else 12)
-        loop_ties(ctx, rng_for(out.seed, 'C13-loops'), 120 if quick else 2500)
+        main_histories(ctx, r, 220 if quick else 3000, 4 if quick else 40)
+        frontier_probes(ctx, rng_for(out.seed, 'C13-probes'), 3 if quick else 12)
+        atomic_upload_observations(ctx, rng_for(out.seed, 'C13-atomic'), 60 if quick else 1500)
+        loop_ties(ctx, rng_for(out.seed, 'C13-loops'), 150 if quick else 2500)
         pathlib_ties(ctx, rng_for(out.seed, 'C13-pathlib'), 400 if quick else 6000)
+        sigs = {}
+        for v in out.violations:
+            sigs[v['sig']] = sigs.get(v['sig'], 0) + 1
+        out.extra['oracle_findings_by_sig'] = sigs
     finally:
         shutil.rmtree(WORK / str(os.getpid()), ignore_errors=True)
 
